@@ -2349,8 +2349,9 @@ class TypeBlocks(ContainerOperand):
             elif self._shape == other._shape:
                 # if the result of reblock does not result in compatible shapes, we have to use .values as operands; the dtypes can be different so we only have to check that they columns sizes, the second element of the signature, all match.
                 if not self.reblock_compatible(other):
-                    self_operands = (self.values,)
-                    other_operands = (other.values,)
+                    # operate column by column: consolidating to .values would coerce every column to the row dtype (int64 columns to float64 next to a float column)
+                    self_operands = self.axis_values(0)
+                    other_operands = other.axis_values(0)
                 else:
                     self_operands = self._reblock()
                     other_operands = other._reblock()
